@@ -415,6 +415,7 @@ def _one_frame(d, mat, cx, values=None):
         cx.gen("mask1", im.m1.astype(int), mat["mask1"])
     i, j = im.coo()
     v = im.data[im.m1] if values is None else values(d, im)
+    v = cx.inj(np.ascontiguousarray(v).copy())        # value class of the intensities (KernelCalls!FV / FvAt)
     try:
         f = _frame(sparseframe, i, j, (im.ns, im.nf), intensity=(v, {}))
     except Exception as e:      # noqa
@@ -451,7 +452,7 @@ def w_sparse_lm(d, mat, cx):
     lab = f.pixels["localmax"]
     if len(lab) and (lab.min() < 1 or lab.max() > n):
         cx.bad("sparse_localmax: labels outside 1..%d: min %d max %d" % (n, lab.min(), lab.max()))
-    if d["par"] != "flat":
+    if d["par"] != "flat" and cx.finite:
         full = np.zeros((im.ns, im.nf), np.float32)
         full[im.m1] = v
         es = D.expected_sparse(full.ravel(), im.ns, im.nf, im.m1)
@@ -552,6 +553,7 @@ def _scan(d, cx, values):
     base = (im.v * 10.0 + ((k * 7919) % 1009) / 4096.0).astype(np.float32) if d["par"] not in ("flat",) else np.ones((im.ns, im.nf), np.float32)
     if d["k"] == "py:scan_cplabel":
         base = im.v.astype(np.float32)
+    base = cx.inj(np.ascontiguousarray(base).copy())  # value class of the intensities, on the pixel grid of every frame
     for m in masks:
         ii, jj = np.nonzero(m)
         rows.append(ii.astype(np.uint16))
@@ -608,7 +610,7 @@ def w_scan_lmlabel(d, mat, cx):
                 cx.close("SparseScan.lmlabel frame %d smoothed signal" % q, sig, D.ref_smooth_mask(m, base[m]), rel=1e-5)
             if lab.min() < nl + 1 or lab.max() > nl + s.nlabels[q]:
                 cx.bad("SparseScan.lmlabel frame %d: labels %d..%d outside %d..%d" % (q, lab.min(), lab.max(), nl + 1, nl + s.nlabels[q]))
-            if d["par"] != "flat":
+            if d["par"] != "flat" and cx.finite:
                 full = np.zeros((im.ns, im.nf), np.float32)
                 full[m] = sig            # the labelling of the signal the scan holds, by the definition
                 es = D.expected_sparse(full.ravel(), im.ns, im.nf, m)
